@@ -49,6 +49,50 @@ def gen(rng, tier):
         if valid is not None:
             c["validFrom"] = valid
         yield c
+    # pre-filled containers holding one element that violates a validator, under every list policy (tag and option): the
+    # defaults are validated "just as if the values came from the configuration", wherever the policy leaves them
+    prng = rng.fork("prefilled-invalid")
+    for _ in range(n // 6):
+        elem_struct = prng.chance(0.6)
+        if elem_struct:
+            ety = TG.T("struct", f=[{"n": "N", "tag": "", "v": prng.pick(["min=1", "nonzero", "positive", "max=5"]), "ty": TG.T(prng.pick(["int", "uint8", "float64", "int16"]))},
+                                    {"n": "S", "tag": "", "v": "", "ty": TG.T("string")}])
+            vtag = ety["f"][0]["v"]; nk = ety["f"][0]["ty"]["t"]
+            def mk(goodv):
+                x = (3 if goodv else {"min=1": 0, "nonzero": 0, "positive": -1, "max=5": 9}[vtag])
+                if nk.startswith("u") and x < 0: x = 0 if vtag != "positive" else 3
+                enc = {"f": "%016x" % TG._fbits(x)} if nk.startswith("float") else ({"u": str(x)} if nk.startswith("u") else {"i": str(x)})
+                return {"st": [enc, {"s": "v"}]}
+            def cfgel(): return M([("n", U(4)), ("s", S("c"))])
+            ftag_v = ""
+        else:
+            nk = prng.pick(["int", "uint16", "float32"])
+            ety = TG.T(nk)
+            ftag_v = prng.pick(["min=1", "nonzero", "positive"])      # a validator on the list field applies to the list, elements are primitives
+            def mk(goodv):
+                x = 3 if goodv else 0
+                return {"f": "%016x" % TG._fbits(x)} if nk.startswith("float") else ({"u": str(x)} if nk.startswith("u") else {"i": str(x)})
+            def cfgel(): return U(4)
+        pol_tag = prng.pick(["", ",append", ",prepend", ",replace", ",merge"])
+        kind = prng.pick(["slice", "slice", "map", "array"])
+        nold = 1 + prng.below(3)
+        badpos = prng.below(nold) if prng.chance(0.7) else None
+        if kind == "slice":
+            fty = TG.T("slice", e=ety); oldv = {"sl": [mk(i != badpos) for i in range(nold)]}
+            setting = A([cfgel() for _ in range(prng.below(3))])
+        elif kind == "array":
+            fty = TG.T("array", n=nold, e=ety); oldv = {"ar": [mk(i != badpos) for i in range(nold)]}
+            setting = A([cfgel() for _ in range(nold)])
+        else:
+            fty = TG.T("map", e=ety); oldv = {"mp": {"k%d" % i: mk(i != badpos) for i in range(nold)}}
+            setting = M([("k%d" % (nold + i), cfgel()) for i in range(prng.below(2))] + ([("k0", cfgel())] if prng.chance(0.3) else []))
+        ty = TG.T("struct", f=[{"n": "L", "tag": "l" + pol_tag, "v": ftag_v if kind != "map" else "", "ty": fty}, {"n": "Z", "tag": "", "v": "", "ty": TG.T("int")}])
+        mention = prng.chance(0.8)
+        cfg = M(([("l", setting)] if mention else []) + [("z", U(1))])
+        uopts = [opt(prng.pick(["Append", "Prepend", "Replace", "ReplaceArr"]))] if prng.chance(0.25) else []
+        yield {"k": "unpack", "ty": ty, "old": {"st": [oldv, {"i": "0"}]}, "from": cfg, "copts": [], "uopts": uopts, "strictErr": False,
+               "_tag": "unpack/prefilled-invalid/" + kind, "_nt": True,
+               "_sig": "prefinv|%s|%s|%s|%s|%s|%s" % (kind, pol_tag, elem_struct, badpos is not None, mention, uopts[0]["o"] if uopts else "")}
     # named types with Validate / InitDefaults methods next to their method-less twins
     crng = rng.fork("catalog")
     for _ in range(n // 4):
